@@ -135,7 +135,13 @@ class H11Protocol:
         if isinstance(event, Response):
             if event.status_code >= 200:
                 headers = list(chain(event.headers, self.config.response_headers("h11")))
-                if self.keep_alive_requests >= self.config.keep_alive_max_requests:
+                if (
+                    self.keep_alive_requests >= self.config.keep_alive_max_requests
+                    # Responding before the request has been received in
+                    # full, the connection cannot be reused (and will be
+                    # closed after the response) which is to be said.
+                    or self.connection.their_state is h11.SEND_BODY
+                ) and (b"connection", b"close") not in headers:
                     headers.append((b"connection", b"close"))
                 await self._send_h11_event(
                     h11.Response(
